@@ -263,3 +263,26 @@ package config
 //@   ensures [the-loaded-configuration-is-returned] called("Load") && ret1("Load") == nil ==> result0 == ret("Load") && result1 == nil
 //@   at call resolveFilepaths assert [only-a-loaded-configuration-is-completed] arg1 == ret("Load") && ret1("Load") == nil
 //@   noeffect Load resolveFilepaths
+
+// ---- C17: the initial load: a nil configuration is refused without touching the one in force; otherwise the given
+// configuration becomes the one in force and every subscriber is told, under the lock; a subscriber's error is returned.
+//@ func (*Coordinator).ApplyConfig
+//@   props C17
+//@   nosafe
+//@   requires c != nil
+//@   after call errors.New assume res0 != nil
+//@   ensures [monitor-lock-released] count("Mutex).Lock") == count("Mutex).Unlock") && count("Mutex).Lock") == 1
+//@   at call notifySubscribers assert [the-given-configuration-is-in-force-under-the-lock] c.config == conf && conf != nil && count("Mutex).Lock") == 1 && count("Mutex).Unlock") == 0
+//@   ensures [nil-is-refused-and-changes-nothing] conf == nil ==> result != nil && c.config == old(c.config) && !called("notifySubscribers")
+//@   ensures [subscriber-error-reported] called("notifySubscribers") && ret("notifySubscribers") != nil ==> result == ret("notifySubscribers")
+//@   ensures [success-only-when-all-accepted] result == nil ==> called("notifySubscribers") && ret("notifySubscribers") == nil && conf != nil
+
+// subscribers are added, never dropped or reordered
+//@ func (*Coordinator).Subscribe
+//@   props C17
+//@   requires c != nil
+//@   assumes base(ss) != base(c.subscribers)
+//@   ensures [monitor-lock-released] count("Mutex).Lock") == 1 && count("Mutex).Unlock") == 1
+//@   ensures [appended-in-order] len(c.subscribers) == old(len(c.subscribers)) + len(ss)
+//@             && (forall i int :: 0 <= i && i < old(len(c.subscribers)) ==> c.subscribers[i] == old(c.subscribers[i]))
+//@             && (forall i int :: 0 <= i && i < len(ss) ==> c.subscribers[old(len(c.subscribers)) + i] == ss[i])
